@@ -138,18 +138,22 @@ def lexPairs : List (Option Char × Option Char) → Except PyExc (Option Int)
 def lexLoop (p1 p2 : Str) : Except PyExc (Option Int) := lexPairs (zipLongest p1 p2)
 
 /-- one iteration of the `while v1 or v2` loop: `inl r` = return `r`; `inr (v1, v2)` = continue -/
-def cmpStep (v1 v2 : Str) : Except PyExc (Int ⊕ (Str × Str)) := do
-  let (p1, v1) := getNonDigitPrefix v1
-  let (p2, v2) := getNonDigitPrefix v2
-  let r ← if p1 ≠ p2 then lexLoop p1 p2 else pure none
-  match r with
-  | some r => pure (.inl r)
-  | none =>
-    let (d1, v1) ← getDigitPrefix v1
-    let (d2, v2) ← getDigitPrefix v2
-    if d1 < d2 then pure (.inl (-1))
-    else if d1 > d2 then pure (.inl 1)
-    else pure (.inr (v1, v2))
+def cmpStep (v1 v2 : Str) : Except PyExc (Int ⊕ (Str × Str)) :=
+  let n1 := getNonDigitPrefix v1
+  let n2 := getNonDigitPrefix v2
+  match (if n1.1 ≠ n2.1 then lexLoop n1.1 n2.1 else .ok none) with
+  | .error e => .error e
+  | .ok (some r) => .ok (.inl r)
+  | .ok none =>
+    match getDigitPrefix n1.2 with
+    | .error e => .error e
+    | .ok d1 =>
+      match getDigitPrefix n2.2 with
+      | .error e => .error e
+      | .ok d2 =>
+        if d1.1 < d2.1 then .ok (.inl (-1))
+        else if d1.1 > d2.1 then .ok (.inl 1)
+        else .ok (.inr (d1.2, d2.2))
 
 /-- `compare_strings`, the loop unrolled with fuel (each iteration consumes at least one
 character while either list is non-empty, so `|v1| + |v2|` iterations always suffice) -/
@@ -157,29 +161,35 @@ def compareStringsFuel : Nat → Str → Str → Except PyExc Int
   | 0, _, _ => .ok 0
   | n + 1, v1, v2 =>
     if v1.isEmpty && v2.isEmpty then .ok 0
-    else do
-      match ← cmpStep v1 v2 with
-      | .inl r => pure r
-      | .inr (v1, v2) => compareStringsFuel n v1 v2
+    else
+      match cmpStep v1 v2 with
+      | .error e => .error e
+      | .ok (.inl r) => .ok r
+      | .ok (.inr w) => compareStringsFuel n w.1 w.2
 
 def compareStrings (v1 v2 : Str) : Except PyExc Int :=
   compareStringsFuel (v1.length + v2.length) v1 v2
 
 /-- `compare_version_objects` -/
-def compareVersionObjects (a b : Ver) : Except PyExc Int := do
-  if a.epoch < b.epoch then return -1
-  if a.epoch > b.epoch then return 1
-  let r ← compareStrings a.upstream b.upstream
-  if r ≠ 0 then return r
-  if !a.revision.isEmpty || !b.revision.isEmpty then
-    compareStrings a.revision b.revision
-  else return 0
+def compareVersionObjects (a b : Ver) : Except PyExc Int :=
+  if a.epoch < b.epoch then .ok (-1)
+  else if a.epoch > b.epoch then .ok 1
+  else
+    match compareStrings a.upstream b.upstream with
+    | .error e => .error e
+    | .ok r =>
+      if r ≠ 0 then .ok r
+      else if !a.revision.isEmpty || !b.revision.isEmpty then compareStrings a.revision b.revision
+      else .ok 0
 
 /-- `compare_versions` on two strings (`coerce_version` = `from_string`) -/
-def compareVersions (a b : Str) : Except PyExc Int := do
-  let va ← fromString a
-  let vb ← fromString b
-  compareVersionObjects va vb
+def compareVersions (a b : Str) : Except PyExc Int :=
+  match fromString a with
+  | .error e => .error e
+  | .ok va =>
+    match fromString b with
+    | .error e => .error e
+    | .ok vb => compareVersionObjects va vb
 
 /-- `eval_constraint` from the three-way result: the operator table is `Generated.ops` -/
 def evalOp (op : String) (r : Int) : Except PyExc Bool :=
@@ -191,10 +201,9 @@ def evalOp (op : String) (r : Int) : Except PyExc Bool :=
   | none => .error .valueError
 
 /-- `eval_constraint(version1, operator, version2)` on strings -/
-def evalConstraint (a : Str) (op : String) (b : Str) : Except PyExc Bool := do
-  let va ← fromString a
-  let vb ← fromString b
-  let r ← compareVersionObjects va vb
-  evalOp op r
+def evalConstraint (a : Str) (op : String) (b : Str) : Except PyExc Bool :=
+  match compareVersions a b with
+  | .error e => .error e
+  | .ok r => evalOp op r
 
 end Model.Version
